@@ -340,7 +340,21 @@ def concat_any(ctx, a, b):
                 return NumStr(b.bv, b.signed, a.s + b.pre, b.suf)
             return FloatStr(b.fp, a.s + b.pre, b.suf)
         raise Unmodelled('concat of two symbolic numerals')
+    if isinstance(a, SpecialStr) or isinstance(b, SpecialStr):
+        return OpaqueStr('%r ++ %r' % (a, b))
     return str_concat(ctx, a, b)
+
+
+class OpaqueStr(SpecialStr):
+    """a text nothing is known about except that it was built (messages); any inspection of it is UNMODELLED"""
+    __slots__ = ('what',)
+
+    def __init__(self, what):
+        Str.__init__(self)
+        self.what = what
+
+    def __repr__(self):
+        return 'OpaqueStr(%s)' % self.what[:60]
 
 
 @model(r'^core::fmt::rt::Argument::new_display$|^core::fmt::rt::Argument::new_debug$|^core::fmt::rt::Argument::new_lower_hex$')
